@@ -68,18 +68,35 @@ LEVEL_TEXT = ("Lean 4 theorems (Props/C08.lean) about ANY two least-squares solu
               "SVD::min_subset_x: minimal subset norm for any defect, for the factors the model of SVD::svd returns "
               "(Props/C08SvdDecompose.lean: no certificate; hypothesis = the returned singular values are 0 or above "
               "tol*max W), tied by an svd stream with defect 2-4 and subsets of size exactly = defect; through LocalNetwork "
-              "for any two algorithms and two lists: C08_net_datum.")
+              "for any two algorithms and two lists: C08_net_datum. Rounds 7-8: the two lists are those of two CALLS of the "
+              "executed model of project_equations() (Model/ProjectEquations.lean) on networks that differ only in which "
+              "coordinate groups are constrained and which free - C08_pe_datum_same (value level, every carrier incl. Float, any "
+              "depth of the singular_coords recursion: same rows, right-hand sides, clusters, m0, unknowns_, removed points; only "
+              "min_x_ differs), C08_pe_datum (full: both lists = MinX.fillMin of the numbering and statuses each call ends with, "
+              "distinct, in 1..n; equal residuals, [pvv], A x, defect, all q_bb; each x S-orthogonal to ker A over its own "
+              "list), C08_pe_datum_gap / C08_net_datum_gap with ONE input-side solver hypothesis per run (InputGap on the same "
+              "(A, P), once per list; RegListOK of both lists derived from the calls); C08_net_datum applied over R to a "
+              "correlated network with cholesky on one list and the envelope on the other (C08_net_datum_witness).")
 LEVEL_NOTE = ("Exact-arithmetic statements; IEEE rounding is outside. 'All distances and angles between adjusted points are "
-              "the same' is proved to first order only (difference of the two solutions is a kernel vector = "
-              "infinitesimal similarity); to printed precision after iteration it is checked by the network oracle, not "
-              "proved. In Model/MinX.lean the set of revised observations and the numeric half of singular_coords "
-              "(1 - |cos| < 1e-12) are a parameter (World) the theorems quantify over; the driver runs the structural part "
-              "of LocalRevision and the generator avoids histories in which the numeric test could fire. The svd theorems "
+              "the same' has NO theorem: proved are x - x' in ker A (all levels) and that a HAND-WRITTEN 2D distance design "
+              "(Lemmas/LS/Datum2D.lean, not the regenerated rows; no directions, angles, 3D) annihilates translations and the "
+              "infinitesimal rotation (C08_datum_kernel_2d); the invariance of distances / angles itself is not stated, and to "
+              "printed precision after iteration it is checked by the network oracle (inter-point distances, height "
+              "differences), not proved. In Model/MinX.lean the set of revised observations and the numeric half of "
+              "singular_coords (1 - |cos| < 1e-12) are a parameter (World) the theorems quantify over; the driver runs the "
+              "structural part of LocalRevision and the generator avoids histories in which the numeric test could fire "
+              "(Model/ProjectEquations.lean, which the C08_pe_datum* theorems are about, executes both halves and the "
+              "regenerated linearisation; it is tied by the pe stream of C01/C05, not by a stream of this check). "
+              "C08_pe_datum compares two single calls; C08_pe_datum_partial is the round-7 form with the equality of the two "
+              "assembled systems as a hypothesis (now derived); the pe forms keep S-orthogonality but not the two minimal-norm "
+              "conjuncts of C08_net_datum. Solver premise at LocalNetwork level: Net.SolverHyp per run, or the input-side "
+              "InputGap (thresholds + RankGap for envelope/cholesky/gso, SingGap for svd) in the _gap forms. The svd theorems "
               "no longer take the factorisation as a certificate: A = U W V', V'V = 1, U'U = 1 on kept columns are proved "
               "for what Svd.decompose returns (C08_svd_decompose_subset_min_norm, C08_svd_decompose_datum); not proved: "
               "convergence of the QR iteration (= decompose returns), rounding. Every per-solver instance carries its "
               "solver's 'tested quantity is exactly 0 or above the tolerance' premise; the real kernels' absolute "
-              "tolerances under extreme weights are known findings (F22, C09-F2, C10-TINY); F22 is met by the net stream "
+              "tolerances under extreme weights are known findings (F22, C09-F2, C10-TINY; status known, F22 also recorded "
+              "for C08 in known_findings.jsonl); F22 is met by the net stream "
               "itself (a 7-point free trilateration network refused by --algorithm envelope only; recognised by the "
               "solver-level defect count env < chol = gso = svd = expected, see classify).")
 TECHNIQUE = "Lean 4 proof (Mathlib matrices over an ordered field) + model/implementation correspondence + metamorphic oracles"
@@ -88,7 +105,12 @@ ASSUMPTIONS = c01p.ASSUMPTIONS + ["network oracle: generated networks are well d
                                   "(runs reporting another defect are counted and skipped)"]
 TRUSTED = ["tools/lib/gen_ls.py exact rational kernel / 'resolves' decision / reference solution (the latter decides ls cases "
            "whose x lines miss the componentwise 1e-9 comparison on an ill-conditioned problem: tools/lib/exact_verdict.py)",
-           "tools/lib/gen_net.py gkf writer and result reader"]
+           "tools/lib/gen_net.py gkf writer and result reader",
+           "hand models: Model/MinX.lean (numbering / min_x_ bookkeeping; its Obs.refs is hand-written, proved equal to the "
+           "touches of the regenerated linearisation in C05_minx_refs_are_generated_touches), Lemmas/LS/Datum2D.lean (2D "
+           "distance rows of the clause-6 reading)",
+           "tools/gen/pe_stream.py pe_harness + harness/pe_net.cpp (solver_defects: the project equations of a failing gkf fed "
+           "to adj_harness, root-cause clause of the F22 signature in classify); corpus/C08/f22-envelope-2d-dist-7pt.*"]
 
 ALGS = c01p.ALGS
 NET_ALGS = ("envelope", "cholesky", "gso", "svd")
